@@ -19,18 +19,24 @@ TYPES = [
   ('laythe_core/src/captures.rs', 'Captures'), ('laythe_core/src/signature.rs', 'Parameter'), ('laythe_core/src/signature.rs', 'NativeSignature'),
   ('laythe_core/src/collections/unique_vector/mod.rs', 'UniqueVector'),
   ('laythe_vm/src/fiber/call_frame.rs', 'CallFrame'), ('laythe_vm/src/fiber/mod.rs', 'Fiber'),
+  # the interpreter's ROOT SET: struct in vm/mod.rs, `impl TraceRoot for Vm` in vm/impls.rs
+  ('laythe_vm/src/vm/mod.rs', 'Vm', 'laythe_vm/src/vm/impls.rs', 'TraceRoot for Vm'),
 ]
 
 IMPL_NAME = {'Map': 'Map<K, V>', 'UniqueVector': 'UniqueVector<T, H>'}
 
 # ---- classification of field types -----------------------------------------------------------------------------------
-_LEAF = [r'Value', r'ObjRef<.*>', r'Ref<.*>', r'LyStr', r'Captures', r'Instance', r'List(<.*>)?', r'Tuple', r'Array<.*>', r'RawSharedVector<.*>',
+_LEAF = [r'InlineCache', r'VmFiles', r'BuiltIn', r'Value', r'ObjRef<.*>', r'Ref<.*>', r'LyStr', r'Captures', r'Instance', r'List(<.*>)?', r'Tuple', r'Array<.*>', r'RawSharedVector<.*>',
          r'RawUniqueVector<.*>', r'UniqueVector<.*>', r'Chunk', r'NativeMeta', r'NativeSignature', r'Box<dyn LyNative>', r'Box<dyn Enumerate>',
          r'Parameter', r'[A-Z]']                      # a single capital = a type parameter bounded by Trace
-_PLAIN = [r'bool', r'u8', r'u16', r'u32', r'i32', r'usize', r'f64', r'\*mut .*', r'\*const .*', r'Arity', r'FunKind', r'FiberState', r'ChannelKind',
+_PLAIN = [r'RefCell<Allocator>', r'Io', r'PathBuf', r'IdEmitter', r'bool', r'u8', r'u16', r'u32', r'i32', r'usize', r'f64', r'\*mut .*', r'\*const .*', r'Arity', r'FunKind', r'FiberState', r'ChannelKind',
           r'ChannelQueueState', r'ChannelQueueKind', r'NativeEnvironment', r'ParameterKind', r'ObjectKind', r'AtomicBool']
 # fields whose referent is provably reachable through another traced field (A-alias; each is an assumption listed in the evidence)
-EXEMPT = {('Class', 'init'): 'Class::add_method stores the initialiser in `methods` under "init" as well, and inherit copies the super class methods: `init` aliases an entry of `methods`'}
+EXEMPT = {
+  ('Vm', 'builtin'): 'the builtin classes are symbols of the std package modules, which `packages` reaches',
+  ('Vm', 'global_module'): 'the global module is the root module of the std package, which `packages` reaches',
+  ('Vm', 'current_fun'): 'the function of the innermost frame of `fiber`, which Fiber::trace reaches through `frames`',
+  ('Class', 'init'): 'Class::add_method stores the initialiser in `methods` under "init" as well, and inherit copies the super class methods: `init` aliases an entry of `methods`'}
 
 def _is(pats, t): return any(re.fullmatch(p, t) for p in pats)
 
@@ -54,7 +60,7 @@ def classify(t):
   head, args = _split_generic(t)
   if head in ('HashMap', 'LyHashMap', 'Map') and len(args) >= 2:
     return ('kv', classify(args[0])[0] != 'plain', classify(args[1])[0] != 'plain')
-  if head in ('HashSet', 'LyHashSet', 'VecDeque') and len(args) >= 1:
+  if head in ('HashSet', 'LyHashSet', 'VecDeque', 'Vec') and len(args) >= 1:
     return ('kv', classify(args[0])[0] != 'plain', False)
   m = re.fullmatch(r'Box<\[(.*)\]>', t)
   if m: return ('kv', classify(m.group(1))[0] != 'plain', False)
@@ -99,7 +105,9 @@ def _fields(struct_text):
 def generate(repo):
   from engine import Undecided
   prelude, contracts = ['// ---- model structs generated from the real definitions (field names kept, types abstracted) ----'], []
-  for relfile, name in TYPES:
+  for ent in TYPES:
+    relfile, name = ent[0], ent[1]
+    implname = ent[3] if len(ent) > 3 else 'Trace for ' + name
     rf = rsitems.RustFile(os.path.join(repo, relfile))
     it = rf.find('struct', name)
     try:
@@ -121,8 +129,8 @@ def generate(repo):
       elif c[0] == 'kv':
         if c[1]: ens.append('%s.reach_keys().subset_of(final(verif_log).seen)' % acc)
         if c[2]: ens.append('%s.reach_vals().subset_of(final(verif_log).seen)' % acc)
-    contracts.append('@fn Trace for %s::trace\n@tags C05\n@spec\n  // generated: trace reaches every GC-typed field of %s (%s)\n  ensures\n%s\n@end\n'
-                     % (name, name, ', '.join('%s: %s' % (f, ty) for f, ty, _ in cls), '\n'.join('    %s,' % e for e in ens)))
+    contracts.append('@fn %s::trace\n@tags C05\n@spec\n  // generated: trace reaches every GC-typed field of %s (%s)\n  ensures\n%s\n@end\n'
+                     % (implname, name, ', '.join('%s: %s' % (f, ty) for f, ty, _ in cls), '\n'.join('    %s,' % e for e in ens)))
   for t in ('Array', 'RawUniqueVector', 'RawSharedVector'):
     prelude.append('''impl %s {
   pub uninterp spec fn id(&self) -> int;
@@ -143,7 +151,7 @@ UNIT = dict(
   properties=['C05'],
   generate=generate,
   items=[('laythe_core/src/object/mod.rs', ['enum ObjectKind']), ('laythe_core/src/macros.rs', ['macro to_obj_kind', 'macro match_obj'])]
-        + [(f, [('impl Trace for ' + IMPL_NAME.get(n, n), ['trace'])]) for f, n in TYPES] + [
+        + [((e[2] if len(e) > 2 else e[0]), [('impl ' + (e[3] if len(e) > 3 else 'Trace for ' + IMPL_NAME.get(e[1], e[1])), ['trace'])]) for e in TYPES] + [
     # mark-guarded handles and the kind dispatch: contracts written by hand in contracts.vrs
     ('laythe_core/src/reference/obj_reference.rs', [('impl Trace for ObjRef<T>', ['trace']), ('impl Trace for ObjectRef', ['trace'])]),
     ('laythe_core/src/reference/mod.rs', [('impl Trace for Ref<T>', ['trace'])]),
@@ -158,7 +166,7 @@ UNIT = dict(
     ('R12', 'macro match_obj', dict(pat=r'\s*use \$crate::to_obj_kind;\n', rep='\n', regex=True, count=1)),
     ('R12', 'macro match_obj', dict(pat='$crate::ObjectRef', rep='ObjectRef', count=1)),
     # the trait impl becomes an inherent impl of the model struct (Verus cannot take `requires`/ghost parameters on a foreign trait's method)
-    ('R15', 'kind:implhdr', dict(pat=r'^impl(?:<[^{]*>)?\s+Trace\s+for\s+(\w+)(?:<[^{]*>)?\s*(?:where[^{]*)?\{', rep=r'impl \1 {', regex=True, count=1)),
+    ('R15', 'kind:implhdr', dict(pat=r'^impl(?:<[^{]*>)?\s+Trace(?:Root)?\s+for\s+(\w+)(?:<[^{]*>)?\s*(?:where[^{]*)?\{', rep=r'impl \1 {', regex=True, count=1)),
     ('R15', 'kind:fn', dict(pat=r'^(\s*(?:#\[inline\]\s*)?)fn trace', rep=r'\1pub fn trace', regex=True, count=1)),
     ('R15', 'kind:fn'),
   ],
